@@ -173,7 +173,7 @@ def judge_pair(ctx, case, resp):
     equal_diff_scale = kx == ky == "number" and fwd["="] is True and bx != by
     if equal_diff_scale:
         labels.append("equal-value-different-scale")
-    nontrivial = kx != ky or kx == "null" or equal_diff_scale or (kx == ky and bx == by) or (same_ext and fwd["="] is True)
+    nontrivial = kx != ky or kx == "null" or equal_diff_scale or (kx == ky and bx == by) or (same_ext and fwd["="] is True) or (kx in ("list", "context") and case.get("part") != "pairs" and len(sx) + len(sy) > 12)
     ctx.note(key=["pair", sx, sy], nontrivial=nontrivial, labels=labels,
              sample={"x": sx, "y": sy, "x?y": dict((o, sh(fwd[o])) for o in PAIR_OPS), "y?x": dict((o, sh(bwd[o])) for o in PAIR_OPS)})
 
@@ -201,6 +201,10 @@ def judge_pair(ctx, case, resp):
                 sig = "C09/null-equality-asymmetric"
         elif kx == ky == "context" and null_vs_nonnull_entry(bx, by) and {fwd["="], bwd["="]} == {None, False}:
             sig = "C09/null-equality-asymmetric/context-entry"
+        elif {fwd["="], bwd["="]} == {None, False} and "{" in sx and "{" in sy:
+            # contexts (also nested in lists / contexts) one of which lacks a key of the other while a shared key holds values that can
+            # not be compared: which of the two is met first depended on the order of the entries (repaired by eb06ea5)
+            sig = "C09/equality-asymmetric/context-entry-order"
         return fail(sig, "(a = b) == (b = a)", "x = y is %s but y = x is %s" % (sh(fwd["="]), sh(bwd["="])))
     # != is the negation of =
     for d, name in ((fwd, "x ? y"), (bwd, "y ? x")):
@@ -460,6 +464,81 @@ def gen_rand_pair(src):
     return {"k": [kind, kind], "v": [p[0], p[1]]}
 
 
+# ------------------------------------------------------------------------------------------------
+# structured values: lists and contexts (nested) over leaves of every kind; the second value is often a near copy of the first
+# ------------------------------------------------------------------------------------------------
+
+LEAVES = [b for _, k, b in ALPHABET if not (isinstance(b, dict) and ("feel" in b or "l" in b or "c" in b))]
+STRUCT_KEYS = ["a", "b", "c", "d", "e e"]
+
+
+def gen_struct(src, depth, what=None):
+    what = what or src.choice(["list", "context"])
+    def item():
+        if depth > 0 and src.bool(0.3):
+            return gen_struct(src, depth - 1)
+        return src.choice(LEAVES)
+    if what == "list":
+        return {"l": [item() for _ in range(src.int(0, 3))]}
+    keys = src.sample(STRUCT_KEYS, src.int(0, 3))
+    return {"c": [[k, item()] for k in sorted(keys)]}
+
+
+def mutate_struct(src, v):
+    """a copy of the structured value with one thing changed: a leaf of another kind / null, a key dropped, renamed or added, items swapped"""
+    import copy
+    w = copy.deepcopy(v)
+    if "l" in w:
+        items = w["l"]
+        how = src.choice(["leaf", "swap", "drop", "add", "deep"])
+        if how == "swap" and len(items) > 1:
+            items[0], items[-1] = items[-1], items[0]
+        elif how == "drop" and items:
+            items.pop(src.int(0, len(items) - 1))
+        elif how == "add":
+            items.insert(src.int(0, len(items)), src.choice(LEAVES))
+        elif how == "deep" and any(isinstance(x, dict) and ("l" in x or "c" in x) for x in items):
+            i = [j for j, x in enumerate(items) if isinstance(x, dict) and ("l" in x or "c" in x)][0]
+            items[i] = mutate_struct(src, items[i])
+        elif items:
+            items[src.int(0, len(items) - 1)] = src.choice(LEAVES)
+        return w
+    entries = w["c"]
+    how = src.choice(["leaf", "rename", "drop", "add", "deep", "rename+leaf"])
+    free = [k for k in STRUCT_KEYS if k not in [e[0] for e in entries]]
+    if how in ("rename", "rename+leaf") and entries and free:
+        entries[src.int(0, len(entries) - 1)][0] = src.choice(free)
+        if how == "rename+leaf":
+            entries[src.int(0, len(entries) - 1)][1] = src.choice(LEAVES)
+    elif how == "drop" and entries:
+        entries.pop(src.int(0, len(entries) - 1))
+    elif how == "add" and free:
+        entries.append([src.choice(free), src.choice(LEAVES)])
+    elif how == "deep" and any(isinstance(e[1], dict) and ("l" in e[1] or "c" in e[1]) for e in entries):
+        e = [e for e in entries if isinstance(e[1], dict) and ("l" in e[1] or "c" in e[1])][0]
+        e[1] = mutate_struct(src, e[1])
+    elif entries:
+        entries[src.int(0, len(entries) - 1)][1] = src.choice(LEAVES)
+    w["c"] = sorted(entries, key=lambda e: e[0])
+    return w
+
+
+def gen_struct_pair(src):
+    what = src.choice(["list", "context", "context"])
+    x = gen_struct(src, 2, what)
+    if src.bool(0.7):
+        y = mutate_struct(src, x)
+        if src.bool(0.3):
+            y = mutate_struct(src, y)
+    else:
+        y = gen_struct(src, 2, what if src.bool(0.8) else None)
+    kx = "list" if "l" in x else "context"
+    ky = "list" if "l" in y else "context"
+    if src.bool(0.5):
+        x, y, kx, ky = y, x, ky, kx
+    return {"k": [kx, ky], "v": [x, y]}
+
+
 def gen_rand_triple(src):
     kind = src.choice(ORDERED)
     p = pool(src, kind, 3)
@@ -689,6 +768,7 @@ def setup(ctx):
     ctx.p_triple = ctx.register(Part("triples", None, reqs_triple, judge_triple))
     ctx.p_rpair = ctx.register(Part("random-pairs", gen_rand_pair, reqs_pair, judge_pair))
     ctx.p_rtriple = ctx.register(Part("random-triples", gen_rand_triple, reqs_triple, judge_triple))
+    ctx.p_struct = ctx.register(Part("struct-pairs", gen_struct_pair, reqs_pair, judge_pair))
     ctx.p_dst = ctx.register(Part("dst-pairs", gen_dst_pair, reqs_pair, judge_pair))
     ctx.p_xpair = ctx.register(Part("ext-pairs", gen_ext_pair, reqs_pair, judge_pair))
     ctx.p_xtriple = ctx.register(Part("ext-triples", gen_ext_triple, reqs_triple, judge_triple))
@@ -701,6 +781,7 @@ def run(ctx):
     ctx.enumerate(ctx.p_triple, mixed_triples(), name="all ordered triples of the %d-value mixed alphabet (not of one ordered kind)" % len(MIXED), exhaustive=True)
     ctx.forall(ctx.p_rpair, ctx.scale(50000, 6000000), batch=400)
     ctx.forall(ctx.p_rtriple, ctx.scale(50000, 6000000), batch=400)
+    ctx.forall(ctx.p_struct, ctx.scale(40000, 4000000), batch=400)
     ctx.forall(ctx.p_dst, ctx.scale(12000, 1200000), batch=400)
     ctx.forall(ctx.p_xpair, ctx.scale(40000, 4000000), batch=400)
     ctx.forall(ctx.p_xtriple, ctx.scale(20000, 2000000), batch=400)
